@@ -39,6 +39,7 @@ def run_campaign(chk, b, profiles, ncases, facets, sig_prefix, nontrivial_fn, ru
                 stats["runs_behind_permuting_shim"] += 1
         stats["runs_with_an_injected_git_fault"] += r.get("faulted_runs", 0)
         stats["generator_discards"] += r.get("discarded", 0)
+        stats["repositories_in_promisor_layout"] += 1 if r.get("promisor_layout") else 0
         stats["runs_with_stalling_children"] += r.get("stalled_runs", 0)
         stats["runs_with_for_each_ref_output_cut_mid_line"] += r.get("cut_ref_runs", 0)
         for s in r["samples"]:
@@ -63,3 +64,101 @@ def run_campaign(chk, b, profiles, ncases, facets, sig_prefix, nontrivial_fn, ru
     if chk.cov["evaluations"] == 0 or len(chk._distinct) < 2:
         chk.inconc("campaign observed too few non-trivial executions")
     return results
+
+
+# ---------------------------------------------------------------------------------------------------------------------
+# Library-level scans with pauses at the points where the scanning code calls out of its goroutines (progress meter,
+# reference grouper).  The command line tool's own meter never blocks, so these interleavings are out of its reach; a
+# program that uses the packages with its own meter.Progress gets them for free.
+
+DELAY_PLANS = [
+    ("none", []),
+    ("slow-inc/blobs", [{"phase": "blobs", "op": "inc", "us": 2000, "every": 1}]),
+    ("slow-inc/trees", [{"phase": "trees", "op": "inc", "us": 1500, "every": 1}]),
+    ("slow-inc/commits", [{"phase": "Processing commits", "op": "inc", "us": 1500, "every": 1}]),
+    ("slow-inc/matching", [{"phase": "Matching", "op": "inc", "us": 1500, "every": 1}]),
+    ("slow-inc/tags", [{"phase": "tags", "op": "inc", "us": 3000, "every": 1}]),
+    ("slow-inc/references", [{"phase": "references", "op": "inc", "us": 3000, "every": 1}]),
+    ("slow-start", [{"phase": "", "op": "start", "us": 50000}]),
+    ("slow-done", [{"phase": "", "op": "done", "us": 50000}]),
+    ("slow-categorize", [{"phase": "", "op": "categorize", "us": 3000}]),
+    ("late-burst/blobs", [{"phase": "blobs", "op": "inc", "us": 40000, "every": 7, "from": 3}]),
+]
+
+
+def _delay_job(arg):
+    import os
+    import random
+    import shutil
+    from .. import gen as G
+    from .. import oracle as O
+    from .. import parse_out as P
+    seed, idx, drvbin, scratch, tag = arg
+    rng = random.Random("apidelay|%s|%d|%d" % (tag, seed, idx))
+    d = os.path.join(scratch, "apidelay-%s-%d" % (tag, idx))
+    os.makedirs(d)
+    out = {"obs": [], "inconc": None}
+    try:
+        m = G.random_model(rng, size=rng.choice(["small", "medium"]), hostile_names=False, noise=True)
+        gitdir = G.write_model(m, os.path.join(d, "repo"), packed_refs=rng.random() < 0.5)
+        reach = [o for o in O.reachable(list(m.refs.values())).values() if o.kind == "commit"]
+        roots = [rng.choice(reach).oid] if reach and rng.random() < 0.4 else []
+        ex = O.compute(list(m.refs.values()))
+        want = {k: ex.sat(k) for k in O.CAPS if k != "reference_count"}
+        want["reference_count"] = len(m.refs)
+        names = rng.choice(["full", "full", "none", "hash"])
+        cases = [{"id": i, "dir": gitdir, "names": names, "roots": roots, "delays": plan} for i, (_, plan) in enumerate(DELAY_PLANS)]
+        obs, rc, err = R.drv(drvbin, "scan", cases, timeout=600)
+        if len(obs) != len(cases):
+            out["inconc"] = "scan driver answered %d of %d (rc=%s): %r" % (len(obs), len(cases), rc, err[-300:])
+            return out
+        for o in obs:
+            pname = DELAY_PLANS[o["id"]][0]
+            rec = {"plan": pname, "want": want, "repo": [seed, idx], "names": names, "roots": roots}
+            if "panic" in o or "err" in o:
+                rec["failed"] = o.get("panic") or o.get("err")
+            else:
+                js, probs = P.parse_json(o["json"].encode())
+                rec["js"] = js
+                rec["phase_totals"] = o.get("phase_totals") or {}
+            out["obs"].append(rec)
+    finally:
+        shutil.rmtree(d, ignore_errors=True)
+    return out
+
+
+def api_delay_stage(chk, b, keys, prefix, nrepos, tag=None, phase_totals=False):
+    """keys: the JSON v1 keys this property owns. Every (repository, pause plan) scan must give exactly the model's values."""
+    drv = b.apidrv()
+    scratch = b.scratchdir()
+    res = R.pmap(_delay_job, [(R.SEED, i, drv, scratch, tag or prefix) for i in range(nrepos)], chk=chk)
+    plans = collections.Counter()
+    for r in res:
+        if r["inconc"]:
+            chk.inconc(r["inconc"])
+            continue
+        for rec in r["obs"]:
+            chk.count()
+            plans[rec["plan"]] += 1
+            if "failed" in rec:
+                chk.violation("%s/library-scan-with-paused-callbacks/scan-failed/%s" % (prefix, rec["plan"].split("/")[0]),
+                              {"plan": rec["plan"], "error": str(rec["failed"])[:600], "repo": rec["repo"]})
+                continue
+            js = rec["js"] or {}
+            bad = {k: [rec["want"][k], js.get(k)] for k in keys if js.get(k) != rec["want"][k]}
+            if bad:
+                chk.violation("%s/library-scan-with-paused-callbacks/value/%s" % (prefix, sorted(bad)[0]),
+                              {"plan": rec["plan"], "want_got": bad, "repo": rec["repo"], "names": rec["names"], "roots": rec["roots"]})
+            if phase_totals:
+                pt = rec["phase_totals"]
+                exp = {"Processing blobs: %d": "unique_blob_count", "Processing trees: %d": "unique_tree_count",
+                       "Processing commits: %d": "unique_commit_count", "Processing annotated tags: %d": "unique_tag_count",
+                       "Processing references: %d": "reference_count"}
+                wantp = {ph: rec["want"][k] + (len(rec["roots"]) if k == "reference_count" else 0) for ph, k in exp.items()}
+                badp = {ph: [wantp[ph], pt.get(ph)] for ph in exp if pt.get(ph) != wantp[ph]}
+                if badp:
+                    chk.violation("%s/library-scan-with-paused-callbacks/final-count-differs-from-census" % prefix,
+                                  {"plan": rec["plan"], "want_got": badp, "repo": rec["repo"]})
+            if rec["plan"] != "none":
+                chk.nontrivial(("apidelay", tuple(rec["repo"]), rec["plan"]))
+    chk.cov["library_scans_with_paused_callbacks"] = dict(plans)
